@@ -4,6 +4,7 @@ import (
 	"fmt"
 	"io"
 	"strconv"
+	"time"
 
 	"google.golang.org/grpc/internal/envconfig"
 	"google.golang.org/grpc/internal/transport"
@@ -101,7 +102,32 @@ func init() {
 		wouldBlock := func() bool {
 			return v.ReaderErr() == nil && v.ReaderLast() < 0 && v.ChanLen() == 0
 		}
+		// Reader calls are made only when the real code is not supposed to block; a changed tree
+		// may block anyway. The call then runs to a deadline on a helper goroutine and the stream
+		// is declared dead (every later op answers `dead`) instead of hanging the whole run.
+		dead := false
+		guarded := func(call func() string) string {
+			ch := make(chan string, 1)
+			go func() {
+				defer func() {
+					if r := recover(); r != nil {
+						ch <- "PANIC " + fmt.Sprint(r)
+					}
+				}()
+				ch <- call()
+			}()
+			select {
+			case s := <-ch:
+				return s
+			case <-time.After(3 * time.Second):
+				dead = true
+				return "PANIC reader call blocked although data or an error was available"
+			}
+		}
 		return func(f []string) string {
+			if dead {
+				return "dead"
+			}
 			switch f[0] {
 			case "cfg":
 				if started {
@@ -135,8 +161,10 @@ func init() {
 				if wouldBlock() {
 					return "blocked" + state()
 				}
-				buf, err := v.Read(atoi(f[1]))
-				return bufAnswer(buf, err) + state()
+				return guarded(func() string {
+					buf, err := v.Read(atoi(f[1]))
+					return bufAnswer(buf, err) + state()
+				})
 			case "hdr":
 				if held != nil {
 					return "busy" + state()
@@ -144,9 +172,11 @@ func init() {
 				if wouldBlock() {
 					return "blocked" + state()
 				}
-				h := make([]byte, atoi(f[1]))
-				n, err := v.ReadMessageHeader(h)
-				return hdrAnswer(h, n, err) + state()
+				return guarded(func() string {
+					h := make([]byte, atoi(f[1]))
+					n, err := v.ReadMessageHeader(h)
+					return hdrAnswer(h, n, err) + state()
+				})
 			case "rbegin":
 				if held != nil {
 					return "busy" + state()
